@@ -97,9 +97,9 @@ CHECKS = [
          note="The product `greedy control structure x 64 KiB blocks` is composed by argument, not decided by one query. Same bounds, contracts and trusted base as C01 and C17.",
          technique="SMT over MIR (bounded pipeline vs reference greedy scan) + full-width inductive checksum obligations"),
     dict(pid="C19", level="model_checking",
-         text="glob_match's real loop (from MIR, unrolled with an unwinding assertion) is shown equal to the recursive wildcard definition for every pattern/text up to the length bound over {a,b,*,?,.,/}; needs_transfer is decided at full 64-bit width (SMT over MIR, and again by Kani/CBMC on the compiled function); build_plan (from MIR, with BTreeMap/Vec/sort modelled over an ordered path universe and is_excluded as an arbitrary predicate) is shown equal to the set definition of transfer/skipped/delete for every presence/metadata/flag assignment. The solver covers all inputs inside the bound at once, which unit tests sample.",
+         text="glob_match's real loop (from MIR, unrolled with an unwinding assertion) is shown equal to the recursive wildcard definition for every pattern/text up to the length bound over {a,b,*,?,.,/}; needs_transfer is decided at full 64-bit width (SMT over MIR, and again by Kani/CBMC on the compiled function); build_plan (from MIR, with BTreeMap/Vec/sort modelled over an ordered path universe and is_excluded as an arbitrary predicate) is shown equal to the set definition of transfer/skipped/delete for every presence/metadata/flag assignment; a printed remote listing (size TAB secs[.frac] TAB ./name NUL) is parsed back into exactly the triples that produced it. The solver covers all inputs inside the bound at once, which unit tests sample.",
          ref="DESIGN.md §4 C19",
-         note="Bounded: quick |p|<=4,|t|<=5 and 3 paths; thorough |p|<=6,|t|<=7 and 5 paths. is_excluded (pattern trimming, per-component vs whole-path dispatch, loops over patterns and components) is executed from MIR and shown equal to its definition for 1-2 patterns (length <= 3-4) and relative paths (length <= 4-5) of '/'-separated plain names — Path::components is modelled only on that domain (no '.'/'..' components, no leading '/'). In build_plan its result is an arbitrary predicate. NOT covered: parse_remote_meta_output (text parsing is out of reach). Trusted: MIR dump, encoder and its std models (BTreeMap iteration in key order, Vec::push, sort = sorted permutation), validated each run against the native build.",
+         note="Bounded: quick |p|<=4,|t|<=5 and 3 paths; thorough |p|<=6,|t|<=7 and 5 paths. is_excluded (pattern trimming, per-component vs whole-path dispatch, loops over patterns and components) is executed from MIR and shown equal to its definition for 1-2 patterns (length <= 3-4) and relative paths (length <= 4-5) of '/'-separated plain names — Path::components is modelled only on that domain (no '.'/'..' components, no leading '/'). In build_plan its result is an arbitrary predicate. parse_remote_meta_output is decided on a symbolic two-record listing (bounded digits / name lengths, tabs, newlines and dots in names, optional sign and fraction) with std's text routines as contract models validated natively each run; non-ASCII names and what a real `find` prints are not covered. Trusted: MIR dump, encoder and its std models (BTreeMap iteration in key order, Vec::push, sort = sorted permutation), validated each run against the native build.",
          technique="SMT over MIR (bounded loop unrolling with unwinding assertions; std collection models); counterexamples replayed natively"),
     dict(pid="C15", level="model_checking",
          text="At the level of the plan a run executes: every name that matches an exclude pattern under the stated wildcard semantics is recognised by the real glob_match, every path the exclusion definition (slash-free pattern = any single component, pattern with '/' = whole path, trailing '/' trimmed, empty ignored) excludes is reported by the real is_excluded (bounded lengths), and for every exclusion predicate build_plan never puts an excluded path in transfer or delete, produces no delete set without --delete, and deletes only paths absent from the source. Solver-decided over all inputs in the bound.",
